@@ -314,13 +314,33 @@ func (w *weaver) insert(p token.Pos, text string, prio int) {
 
 // stmts instruments a statement list (W3, W5) and descends.
 func (w *weaver) stmts(list []ast.Stmt, fn string, rt bool) {
-	for _, s := range list {
+	for i, s := range list {
 		if rt {
-			id := addSite("stmt", w.name, w.line(s.Pos()), fn)
+			// the statement that follows the execution of a callee's body
+			// (`runCfg(...)`) is the window between the callee's exit, deferred
+			// calls included, and the delivery of its results: its own class
+			kind := "stmt"
+			if i > 0 && callsRunCfg(list[i-1]) {
+				kind = "stmt-after-run"
+			}
+			id := addSite(kind, w.name, w.line(s.Pos()), fn)
 			w.insert(s.Pos(), fmt.Sprintf("verifYield(%d); ", id), 1)
 		}
 		w.stmt(s, fn, rt)
 	}
+}
+
+func callsRunCfg(s ast.Stmt) bool {
+	es, ok := s.(*ast.ExprStmt)
+	if !ok {
+		return false
+	}
+	c, ok := es.X.(*ast.CallExpr)
+	if !ok {
+		return false
+	}
+	id, ok := c.Fun.(*ast.Ident)
+	return ok && id.Name == "runCfg"
 }
 
 // isVerifGoBlock recognises the block produced by pass1 (so that no yield is put
